@@ -309,8 +309,49 @@ theorem applyPlan_moves_ok (t : Tree) (p : Plan) (h1 : LastOnly p.rens) (h2 : Di
     `KindsOk` and `SiblingDestsDistinct`, `applyPlan` either refuses up front or (content phase
     permitting) moves every node to `finalPath`. -/
 theorem applyPlan_refused (t : Tree) (p : Plan) (h : preflightOk t p.rens = false) :
-    applyPlan t p = { outcome := .destExists, tree := t } :=
+    ((applyPlan t p).outcome = .destExists ∨ (applyPlan t p).outcome = .sharedDest) ∧ (applyPlan t p).tree = t :=
   RenamePhase.applyPlan_refused t p h
+
+/-- the source says today that the pre-flight loop has the shared-destination test (repo commit 01297aa) -/
+theorem sharedDestRefused_now : ExecFlags.sharedDestRefused = true := by decide
+
+/-- Since 01297aa the pre-flight loop of `apply_plan` (skip test, shared-destination test, exists test, in plan
+    order) is EXACTLY `DestFree`: both halves, not only the tree half as in `destFree_iff_preflight`. -/
+theorem destFree_iff_preflight_loop (t : Tree) (rs : List Ren) (h1 : LastOnly rs) (h3 : TreeWF t)
+    (h4 : KindsOk t rs) : DestFree t rs ↔ preflight t [] rs = none :=
+  RenamePhase.destFree_iff_preflight_loop sharedDestRefused_now h1.toLemma h3.toLemma h4.toLemma
+
+/-- Hence a DICHOTOMY with no hypothesis about destinations at all: for every tree and every plan whose renames
+    change only the last component of distinct existing sources, `applyPlan` either refuses up front with the
+    tree untouched, or (content phase and read-back permitting) moves every node to `finalPath` — there is no
+    third case in which a rename is half-done or a node is overwritten. -/
+theorem applyPlan_refuses_or_moves (t : Tree) (p : Plan) (h1 : LastOnly p.rens) (h2 : DistinctSources p.rens)
+    (h3 : TreeWF t) (h4 : KindsOk t p.rens)
+    (hc : (contentPhase p.hunks t (sortedFiles p.hunks)).1 = .ok) :
+    (((applyPlan t p).outcome = .destExists ∨ (applyPlan t p).outcome = .sharedDest) ∧ (applyPlan t p).tree = t) ∨
+    ((applyPlan t p).outcome = .ok ∧
+      (applyPlan t p).tree = moveAll p.rens (contentPhase p.hunks t (sortedFiles p.hunks)).2) ∨
+    (applyPlan t p).outcome = .backupFailed ∨ (∃ e, (applyPlan t p).outcome = .rollbackFailed e) := by
+  cases hp : preflight t [] p.rens with
+  | some o =>
+    refine Or.inl ?_
+    rw [RenamePhase.applyPlan_preflight_refusal t p hp]
+    rcases RenamePhase.preflight_some _ _ hp with rfl | rfl
+    · exact ⟨Or.inr rfl, rfl⟩
+    · exact ⟨Or.inl rfl, rfl⟩
+  | none =>
+    exact Or.inr (applyPlan_moves t p h1 h2 h3 h4 ((destFree_iff_preflight_loop t p.rens h1 h3 h4).2 hp) hc)
+
+/-- the case 01297aa was made for: `foo1.txt` and `foo2.txt` both planned onto `bar.txt` (what
+    `replace 'foo\d' bar` plans).  Before it the second rename replaced the first file; now the plan is refused and
+    the tree is untouched.  The rename phase on its own still loses a node. -/
+theorem witness_shared_destination :
+    let t : Tree := [([b!"foo1.txt"], .file b!"A" 420), ([b!"foo2.txt"], .file b!"B" 420)]
+    let rs : List Ren := [⟨[b!"foo1.txt"], [b!"bar.txt"], .file⟩, ⟨[b!"foo2.txt"], [b!"bar.txt"], .file⟩]
+    LastOnly rs ∧ DistinctSources rs ∧ TreeWF t ∧ KindsOk t rs ∧ preflightOk t rs = true ∧ ¬ DestFree t rs ∧
+    (renamePhase t [] (sortRens rs)).outcome = .ok ∧
+    (renamePhase t [] (sortRens rs)).tree = [([b!"bar.txt"], .file b!"B" 420)] ∧
+    (applyPlan t ⟨[], rs⟩).outcome = .sharedDest ∧ (applyPlan t ⟨[], rs⟩).tree = t := by decide
 
 /-- STEP 4 (`generate_reverse_patches`) looks for every path at its final location -/
 theorem currentPath_after (t : Tree) (rs : List Ren) (h1 : LastOnly rs) (h2 : DistinctSources rs)
